@@ -249,6 +249,25 @@ pub fn call(name: &str, args: &[String]) -> Value {
             }
             json!({"evaluations": n, "bad": bad})
         }
+        "error_code_names" => {
+            // from_bytes(as_str(c)) == c for every code from_bytes knows, driven by the repository's own name list
+            let mut bad = vec![];
+            let mut n = 0;
+            let text = std::fs::read_to_string(format!("{}/crates/s3s/src/error/generated.rs", std::env::var("VERIF_REPO").unwrap_or_else(|_| "/repo".into()))).unwrap_or_default();
+            for line in text.lines() {
+                let l = line.trim();
+                if let Some(rest) = l.strip_prefix("b\"") {
+                    if let Some((name, _)) = rest.split_once("\" =>") {
+                        n += 1;
+                        match s3s::S3ErrorCode::from_bytes(name.as_bytes()) {
+                            Some(c) if c.as_str() == name => {}
+                            other => bad.push(json!({"name": name, "from_bytes": format!("{other:?}")})),
+                        }
+                    }
+                }
+            }
+            json!({"evaluations": n, "bad": bad})
+        }
         "error_status" => {
             let c = s3s::S3ErrorCode::from_bytes(args[0].as_bytes());
             json!({"known": c.is_some(), "status": c.and_then(|c| c.status_code()).map(|s| s.as_u16())})
